@@ -53,6 +53,8 @@ def gen_case(seed):
         cancel_at = rnd.choice([0.25, 0.75, 1.25, 2.25])
     elif mode == "timeout":
         spec["timeout"] = rnd.choice([0.75, 1.25, 2.25])
+    if rnd.random() < 0.25:
+        spec["typed_state"] = True   # Context[VfState] persisted through the store's state store
     if rnd.random() < 0.3:
         spec["store_latency"] = 0.05  # a store whose calls suspend: restart logic interleaves with the resumed run's own writes
     return {"seed": seed, "family": "det", "mode": mode, "spec": spec, "cancel_at": cancel_at}
